@@ -1,2 +1,12 @@
 -- Root of the `Haiway` library: models, helper proofs, property theorems.
 import Haiway.Props.C17
+import Haiway.Props.C01
+import Haiway.Props.C03
+import Haiway.Props.C12
+import Haiway.Props.C14
+import Haiway.Props.C15
+import Haiway.Props.C16
+import Haiway.Props.C08
+import Haiway.Props.C09
+import Haiway.Props.C02
+import Haiway.Props.C13
